@@ -202,13 +202,26 @@ func (s *SourceControl) ConfigureRoachSource(args *RoachSourceConfig, reply *boo
 // run the closure f at an appropriate point in the data handling cycle
 // and return any error sent on s.queuedRequests.
 func (s *SourceControl) runLaterIfActive(f func()) error {
+	// A source can stop on its own (on a read error or timeout), so refresh isSourceActive first.
+	s.handlePossibleStoppedSource()
 	if !s.isSourceActive {
 		return fmt.Errorf("no source is active")
 	}
 	verifPoint("rpc:before-send")
-	s.queuedRequests <- f
-	verifPoint("rpc:between")
-	return <-s.queuedResults
+	// The core loop may also end between that check and the moment it would take the request.
+	// Nobody receives from queuedRequests then, so do not wait on the send forever.
+	for {
+		select {
+		case s.queuedRequests <- f:
+			verifPoint("rpc:between")
+			return <-s.queuedResults
+		case <-time.After(10 * time.Millisecond):
+			if !s.ActiveSource.Running() {
+				s.handlePossibleStoppedSource()
+				return fmt.Errorf("no source is active (the source stopped)")
+			}
+		}
+	}
 }
 
 // MixFractionObject is the RPC-usable structure for ConfigureMixFraction
